@@ -725,6 +725,12 @@ def run_validators(ctx, eig_items, svd_items):
 
 
 # ------------------------------------------------------------------------------------------------
+def arpack_refused(r):
+    """ARPACK (the oracle) gave no answer, e.g. 'Starting vector is zero' on an operator that is identically zero
+    (PCA of a matrix with identical rows): nothing to judge."""
+    return r.get('err') in ('ArpackError', 'ArpackNoConvergence')
+
+
 def run(ctx, scratch):
     rng = ctx.rng
     quick = ctx.tier == 'quick'
@@ -756,6 +762,10 @@ def run(ctx, scratch):
                         regularization=rng.choice(REGS), normalized=rng.random() < 0.5, force_bipartite=fb)
             r = impl.call('c09', 'spectral', case, timeout=60)
             ctx.traces += 1
+            if arpack_refused(r):
+                note('Spectral', 'arpack_error')
+                ctx.count('Spectral:arpack_error', ('spectral', case), False)
+                continue
             if 'ok' not in r:
                 ctx.violation('Spectral.fit', 'fit does not return on a valid input', case=case, check='crash', observed=r)
                 continue
@@ -789,6 +799,10 @@ def run(ctx, scratch):
                 case['factor_col'] = rng.choice([0., 0.5, 1.])
             r = impl.call('c09', 'gsvd', case, timeout=60)
             ctx.traces += 1
+            if arpack_refused(r):
+                note(est, 'arpack_error')
+                ctx.count(est + ':arpack_error', ('gsvd', case), False)
+                continue
             if 'ok' not in r:
                 ctx.violation(est + '.fit', 'fit does not return on a valid input', case=case, check='crash', kind=est, observed=r)
                 continue
@@ -869,5 +883,7 @@ def run(ctx, scratch):
         '1e-9 and 1e-5 of the largest are dropped as ill-conditioned (margin_dropped); exactly rank-deficient cases are judged',
         'ARPACK (eigsh, svds), np.linalg.qr, np.argsort, np.sqrt, np.power, Louvain are oracles: captured and fed to the model; '
         'that ARPACK returns the extreme pairs is tested against numpy.linalg.eigvalsh / svd, not proved',
+        'runs in which ARPACK itself raises (ArpackError, e.g. a centred matrix that is identically zero) are counted as '
+        'arpack_error and not judged',
         'weights are non-negative; n_components < n - 1 (Spectral) resp. < min(shape) (SVD family), as the estimators require',
     ]
